@@ -118,7 +118,7 @@ var iterIdx = regexp.MustCompile(`@(\d+)`)
 
 func checkC08(c *Ctx) {
 	r := c.R
-	r.Explain = "Running the generated modules is outside static analysis; route/verb/placement agreement is decided by C03, error mapping by C10, type declarations by C07. Decided here on the reconstructed TypeScript modules (emission grammar, nothing is executed; TypeScript is read with a lexer, not type-checked): R08a every identifier in call or construction position of every reconstructed module (deep exploration, every arm, and a per-iteration enumeration in which the two services and their two methods independently declare or do not declare headers) is declared in the module, a parameter or a platform global — a helper whose emission guard disagrees with its use sites makes the module throw ReferenceError at the first request. R08b the TS client wraps every path substitution in encodeURIComponent and builds the query with URLSearchParams; the TS server applies decodeURIComponent to every extracted segment and reads url.searchParams. R08c in the TS client, the Go client and the TS server's route configuration the header name written/validated is the declared name itself (hole key GetName(), no transformation) and the option/property name is derived from that same header. R08d the TS client sends JSON.stringify(req) exactly for POST/PUT/PATCH with Content-Type application/json and reads resp.json(); the TS server reads req.json() for the same verbs and answers JSON.stringify with the same content type. Not decided: runtime behaviour of fetch/URL, TypeScript typing, values."
+	r.Explain = "Running the generated modules is outside static analysis; route/verb/placement agreement is decided by C03, error mapping by C10, type declarations by C07. Decided here on the reconstructed TypeScript modules (emission grammar, nothing is executed; TypeScript is read with a lexer, not type-checked): R08a every identifier in call or construction position of every reconstructed module (deep exploration, every arm, and a per-iteration enumeration in which the two services and their two methods independently declare or do not declare headers) is declared in the module, a parameter or a platform global — a helper whose emission guard disagrees with its use sites makes the module throw ReferenceError at the first request. R08b the TS client wraps every path substitution in encodeURIComponent and builds the query with URLSearchParams; the TS server applies decodeURIComponent to every extracted segment and reads url.searchParams. R08c in the TS client, the Go client and the TS server's route configuration the header name written/validated is the declared name itself (hole key GetName(), no transformation) and the option/property name is derived from that same header. R08d the TS client sends JSON.stringify(req) exactly for POST/PUT/PATCH with Content-Type application/json and reads resp.json(); the TS server reads req.json() for the same verbs and answers JSON.stringify with the same content type. R08f the TS server selects the string-to-field conversion of path and query parameters with the function the request interface is declared with. R08g on a grid of configurations (base path × config absent / verb only / path only / both) the verb and the path literal reconstructed from the TS client and from the TS server are the same strings. Not decided: runtime behaviour of fetch/URL, TypeScript typing, values."
 	r.Rule("R08a", "every called identifier of every reconstructed TypeScript module is declared, a parameter or a platform global", 4)
 	r.Rule("R08b", "path substitutions are percent-encoded by the client and decoded by the server; query via URLSearchParams", 4)
 	r.Rule("R08c", "typed header options write exactly the declared header name", 6)
@@ -203,6 +203,9 @@ func checkC08(c *Ctx) {
 	c08Headers(c)
 	c08Bodies(c)
 	c08Carriers(c)
+	r.Rule("R08f", "the TS server converts URL strings to the type the TS client's request interface declares (shared with C07/R07e)", 6)
+	c07ServerInputs(c, "R08f")
+	c08RouteAgreement(c)
 }
 
 // unitLines returns the key-rendered lines of every variant of a unit (deduplicated).
@@ -451,3 +454,55 @@ func (c *Ctx) observeEmittedText(pkg, suffix string, s c03Scenario) string {
 }
 
 func init() { props["C08"] = checkC08 }
+
+// c08RouteAgreement: R08g — TS client and TS server publish one verb and one path
+// per configuration, also where the configuration leaves the verb or the path to the default.
+func c08RouteAgreement(c *Ctx) {
+	r := c.R
+	r.Rule("R08g", "TS client and TS server publish the same verb and path for every configuration of the grid, also where verb or path are defaulted", 12)
+	gens := []c03Gen{{"TS client", pkgTSClient, "_client.ts"}, {"TS server", pkgTSServer, "_server.ts"}}
+	noise := map[string]map[string]bool{}
+	marker := c03Scenario{Base: "/zqb", Cfg: &c03Cfg{Path: "/zqp", Method: "ZQVERB"}}
+	for _, g := range gens {
+		o := c.observeEmitted(g.Pkg, g.Suffix, marker)
+		nz := map[string]bool{}
+		for _, l := range o.Lits {
+			if m := verbLike.FindString(l); m != "" && !strings.EqualFold(strings.TrimSpace(m), "zqverb") {
+				nz[l] = true
+			}
+		}
+		noise[g.Name] = nz
+	}
+	var scs []c03Scenario
+	for _, b := range []string{"", "/zqb", "zqb/"} {
+		scs = append(scs, c03Scenario{Base: b})
+		for _, v := range []string{"GET", "DELETE", "PUT"} {
+			scs = append(scs, c03Scenario{Base: b, Cfg: &c03Cfg{Method: v}})
+			scs = append(scs, c03Scenario{Base: b, Cfg: &c03Cfg{Method: v, Path: "/zqp/{id}"}})
+		}
+		scs = append(scs, c03Scenario{Base: b, Cfg: &c03Cfg{Path: "/zqp/{id}"}})
+	}
+	for _, s := range scs {
+		got := map[string][2]string{}
+		pos := ""
+		bad := false
+		for _, g := range gens {
+			o := c.observeEmitted(g.Pkg, g.Suffix, s)
+			if o.Err != "" {
+				r.Unres("R08g", s.String()+": "+g.Name, o.Pos, o.Err)
+				bad = true
+				continue
+			}
+			o.split(noise[g.Name])
+			got[g.Name] = [2]string{strings.Join(o.Verbs, "|"), strings.Join(o.Paths, " | ")}
+			pos = o.Pos
+		}
+		if bad {
+			continue
+		}
+		cl, sv := got["TS client"], got["TS server"]
+		ok := cl == sv && cl[0] != "" && cl[1] != "" && !strings.Contains(cl[0], "|") && !strings.Contains(cl[1], " | ")
+		r.Check(ok, "R08g", s.String(), pos,
+			fmt.Sprintf("%s: the TS client calls %s %q and the TS server routes %s %q: the generated client's request does not reach the generated server's handler", s, cl[0], cl[1], sv[0], sv[1]))
+	}
+}
